@@ -283,8 +283,14 @@ func c14blackStar(c *core.Check) {
 // (the parameter of type *TypeDescriptor) has as right-hand side a call of unwrapDesc, or a local whose only definition is
 // such a call. Otherwise `$.L[*].A` over `list<Key>` with `typedef Val Key` is rejected although `$.L[0].A` is accepted.
 func c14descUnwrapped(c *core.Check) {
-	fd := c.Prog.FuncDecl(fmRel, "FieldMask.addPath")
-	key := fmRel + ".(FieldMask).addPath/descriptor"
+	// the two walkers over (path, descriptor): the one that builds a mask and the one that answers path membership
+	c14descUnwrappedIn(c, "addPath", 3)
+	c14descUnwrappedIn(c, "GetPath", 1)
+}
+
+func c14descUnwrappedIn(c *core.Check, fname string, min int) {
+	fd := c.Prog.FuncDecl(fmRel, "FieldMask."+fname)
+	key := fmRel + ".(FieldMask)." + fname + "/descriptor"
 	if fd == nil {
 		c.Unknown("anchor", key, "", "missing")
 		return
@@ -349,7 +355,43 @@ func c14descUnwrapped(c *core.Check) {
 			"the descriptor the loop continues with is the result of unwrapDesc",
 			"the loop continues with the descriptor "+rules.ExprString(rhs)+", which is not the result of unwrapDesc: when it names a typedef the next segment's kind test fails, so `$.L[*].A` over `list<Key>` (typedef Val Key) is rejected with \"isn't STRUCT\" while `$.L[0].A` is accepted")
 	}
-	if n < 3 {
-		c.Unknown("descriptor-unwrapped-before-use", key, c.Prog.Rel(fd.Pos()), fmt.Sprintf("expected at least three assignments to the descriptor, found %d", n))
+	// a descriptor parameter that is used as it comes in has to be unwrapped first as well: the first kind test must come
+	// after an assignment from unwrapDesc
+	if len(defs[desc]) > 0 {
+		first := defs[desc][0]
+		used := false
+		ast.Inspect(fd.Body, func(m ast.Node) bool {
+			if sel, ok := m.(*ast.SelectorExpr); ok && sel.Pos() < first.Pos() {
+				if id, ok := sel.X.(*ast.Ident); ok && info.Uses[id] == desc {
+					used = true
+				}
+			}
+			return true
+		})
+		// inside a loop the first textual assignment is not the first executed one unless it precedes the loop
+		inLoop := false
+		ast.Inspect(fd.Body, func(m ast.Node) bool {
+			switch x := m.(type) {
+			case *ast.ForStmt:
+				if x.Body.Pos() <= first.Pos() && first.End() <= x.Body.End() {
+					inLoop = true
+				}
+			case *ast.RangeStmt:
+				if x.Body.Pos() <= first.Pos() && first.End() <= x.Body.End() {
+					inLoop = true
+				}
+			}
+			return true
+		})
+		n++
+		c.Decide(!used && !inLoop && isUnwrap(first), "descriptor-unwrapped-before-use", key+"#entry", c.Prog.Rel(first.Pos()),
+			"the incoming descriptor is unwrapped before the walk starts",
+			"the descriptor passed to "+fname+" is used before (or without) being unwrapped: called with a descriptor that names a typedef, the first kind test fails")
+	} else {
+		n++
+		c.Bad("descriptor-unwrapped-before-use", key+"#entry", c.Prog.Rel(fd.Pos()), "the descriptor passed to "+fname+" is never unwrapped: a root or field type that is a typedef fails the first kind test, so a path that was accepted by NewFieldMask is reported as not in the mask")
+	}
+	if n < min {
+		c.Unknown("descriptor-unwrapped-before-use", key, c.Prog.Rel(fd.Pos()), fmt.Sprintf("expected at least %d assignments to the descriptor, found %d", min, n))
 	}
 }
